@@ -1,0 +1,27 @@
+//go:build verif
+
+// Package r21 is the bridge used by the R21 verification harness (/verif) to
+// reach internal packages. Compiled only with -tags verif.
+package r21
+
+import (
+	"github.com/lni/dragonboat/v4/config"
+	"github.com/lni/dragonboat/v4/internal/rsm"
+	"github.com/lni/dragonboat/v4/internal/settings"
+	"github.com/lni/dragonboat/v4/internal/vfs"
+)
+
+// NewMemFS returns a fresh in-memory file system for a NodeHost.
+func NewMemFS() config.IFS {
+	return vfs.NewMemFS()
+}
+
+// WitnessSnapshot returns the bytes of the snapshot image a witness is sent
+// (rsm.GetWitnessSnapshot: an image with an empty session table and no user data).
+func WitnessSnapshot(fs config.IFS) ([]byte, error) {
+	return rsm.GetWitnessSnapshot(fs)
+}
+
+// SnapshotHeaderSize is the size of the header of a snapshot image; the header carries a
+// time stamp, what follows it is a function of the content.
+const SnapshotHeaderSize = settings.SnapshotHeaderSize
